@@ -99,15 +99,86 @@ interface res {
   resource h { constructor(); get: func() -> u32; }
   mk: func() -> h;
 }
+interface resuser {
+  use res.{h};
+  take: func(x: borrow<h>);
+  give: func() -> h;
+}
 world producer { export api; export types; }
 world consumer { import api; export run: func(); }
 world both { import api; import types; export api; }
 world deep { import more; export more; }
 world resy { import res; export res; }
 world usew { use types.{r}; import g: func(a: r); export k: func() -> r; }
+world resprov { import res; export res; export resuser; }
+world rescons { import res; import resuser; }
+world resthru { import res; import resuser; export resuser; }
+world resexp { export res; export resuser; }
+world resboth { import res; import resuser; export res; export resuser; }
 "#;
 
 pub const WIT_WORLDS: &[&str] = &["producer", "consumer", "both", "deep", "resy", "usew"];
+/// worlds that import *and* export an interface with a resource, next to a dependent interface
+/// that uses the resource (a resource passed through several instances)
+pub const WIT_WORLDS_RES: &[&str] = &["resprov", "rescons", "resthru", "resexp", "resboth"];
+
+/// one interface family at two versions of one semver track: a resource and a record, and a
+/// dependent interface using both
+pub const WIT_VER: &str = r#"
+package test:vw;
+
+package test:ver@0.2.0 {
+  interface types { resource h; record rec { x: u32 } mk: func() -> h; }
+  interface api { use types.{h, rec}; f: func(x: borrow<h>) -> rec; }
+}
+package test:ver@0.2.1 {
+  interface types { resource h; resource s; record rec { x: u32 } mk: func() -> h; }
+  interface api { use types.{h, rec}; f: func(x: borrow<h>) -> rec; g: func(); }
+}
+package test:verapi {
+  interface use-lo { use test:ver/types@0.2.0.{h}; take: func(x: h); }
+  interface use-hi { use test:ver/types@0.2.1.{h, s}; take: func(x: h, y: s); }
+}
+
+world vhi { import test:ver/types@0.2.1; }
+world vlo { import test:ver/types@0.2.0; }
+world vlo-api { import test:ver/api@0.2.0; }
+world vhi-api { import test:ver/api@0.2.1; }
+world vlo-use { import test:verapi/use-lo; }
+world vhi-use { import test:verapi/use-hi; }
+world vlo-both { import test:ver/types@0.2.0; import test:verapi/use-lo; }
+world vprov-lo { export test:ver/types@0.2.0; export test:ver/api@0.2.0; }
+world vprov-hi { export test:ver/types@0.2.1; }
+world vmid { import test:ver/types@0.2.0; export test:ver/api@0.2.0; }
+"#;
+pub const WIT_WORLDS_VER: &[&str] = &["vhi", "vlo", "vlo-api", "vhi-api", "vlo-use", "vhi-use", "vlo-both", "vprov-lo", "vprov-hi", "vmid"];
+
+/// what a library contains besides its generated WAT packages
+#[derive(Clone, Copy, Default)]
+pub struct LibSel {
+    /// the six worlds of `WIT_WORLDS`
+    pub wit: bool,
+    /// `WIT_WORLDS_RES`
+    pub res: bool,
+    /// `WIT_WORLDS_VER`
+    pub ver: bool,
+    /// pairs of WAT packages with one name at two versions (same world or not, different bytes)
+    pub twins: bool,
+}
+
+fn wit_cached(text: &'static str, world: &'static str) -> Vec<u8> {
+    use std::collections::HashMap;
+    use std::sync::{Mutex, OnceLock};
+    static CACHE: OnceLock<Mutex<HashMap<(usize, &'static str), Vec<u8>>>> = OnceLock::new();
+    let m = CACHE.get_or_init(|| Mutex::new(HashMap::new()));
+    let key = (text.as_ptr() as usize, world);
+    if let Some(b) = m.lock().unwrap().get(&key) {
+        return b.clone();
+    }
+    let bytes = wit_component_bytes(text, world).unwrap_or_else(|e| panic!("wit world {world}: {e:?}"));
+    m.lock().unwrap().insert(key, bytes.clone());
+    bytes
+}
 
 /// the library of one run: WAT packages drawn from the pools + the WIT worlds
 pub fn build_library(rng: &mut Rng, n_wat: usize, with_wit: bool) -> Vec<LibPkg> {
@@ -115,6 +186,10 @@ pub fn build_library(rng: &mut Rng, n_wat: usize, with_wit: bool) -> Vec<LibPkg>
 }
 
 pub fn build_library_from(rng: &mut Rng, n_wat: usize, with_wit: bool, imports: Vec<(&'static str, Shape)>) -> Vec<LibPkg> {
+    build_library_sel(rng, n_wat, LibSel { wit: with_wit, ..Default::default() }, imports)
+}
+
+pub fn build_library_sel(rng: &mut Rng, n_wat: usize, sel: LibSel, imports: Vec<(&'static str, Shape)>) -> Vec<LibPkg> {
     let mut lib = Vec::new();
     let exports = export_pool();
     for i in 0..n_wat {
@@ -143,15 +218,51 @@ pub fn build_library_from(rng: &mut Rng, n_wat: usize, with_wit: bool, imports: 
             version: if rng.chance(1, 2) { Some(format!("1.{}.0", rng.below(3))) } else { None },
             imports: imps,
             exports: exps,
+            salt: 0,
         };
         let wat = p.wat();
         let bytes = wat::parse_str(&wat).unwrap_or_else(|e| panic!("bad generated wat: {e}\n{wat}"));
         lib.push(LibPkg { name: p.name.clone(), version: p.version.clone(), bytes, origin: "wat", shapes: Some((p.imports.clone(), p.exports.clone())) });
+        // the same package name at another version: the same world with other bytes, or a world
+        // with one export more / one import less
+        if sel.twins && rng.chance(2, 5) {
+            let mut q = WatPkg { name: p.name.clone(), version: None, imports: p.imports.clone(), exports: p.exports.clone(), salt: 1 + i as u32 };
+            q.version = match &p.version {
+                None => Some("1.0.0".to_string()),
+                Some(v) => {
+                    let minor: usize = v.split('.').nth(1).and_then(|m| m.parse().ok()).unwrap_or(0);
+                    Some(if rng.chance(1, 2) { "2.0.0".to_string() } else { format!("1.{}.0", minor + 1) })
+                }
+            };
+            match rng.below(4) {
+                0 => {
+                    if let Some(e) = exports.iter().find(|(n, _)| !q.exports.iter().any(|(m, _)| m == n)) {
+                        q.exports.push((e.0.to_string(), e.1.clone()));
+                    }
+                }
+                1 => {
+                    q.imports.pop();
+                }
+                _ => {}
+            }
+            let wat = q.wat();
+            let bytes = wat::parse_str(&wat).unwrap_or_else(|e| panic!("bad generated wat: {e}\n{wat}"));
+            lib.push(LibPkg { name: q.name.clone(), version: q.version.clone(), bytes, origin: "wat", shapes: Some((q.imports.clone(), q.exports.clone())) });
+        }
     }
-    if with_wit {
+    if sel.wit {
         for w in WIT_WORLDS {
-            let bytes = wit_component_bytes(WIT_LIB, w).unwrap_or_else(|e| panic!("wit world {w}: {e:?}"));
-            lib.push(LibPkg { name: format!("wit:{}", w), version: None, bytes, origin: "wit", shapes: None });
+            lib.push(LibPkg { name: format!("wit:{}", w), version: None, bytes: wit_cached(WIT_LIB, w), origin: "wit", shapes: None });
+        }
+    }
+    if sel.res {
+        for w in WIT_WORLDS_RES {
+            lib.push(LibPkg { name: format!("wit:{}", w), version: None, bytes: wit_cached(WIT_LIB, w), origin: "wit", shapes: None });
+        }
+    }
+    if sel.ver {
+        for w in WIT_WORLDS_VER {
+            lib.push(LibPkg { name: format!("wit:{}", w), version: None, bytes: wit_cached(WIT_VER, w), origin: "wit", shapes: None });
         }
     }
     lib
@@ -189,6 +300,10 @@ pub struct GenCfg {
     /// allow arguments for type-kind imports and exports of WIT-derived functions (their types
     /// mention named types of other items; C01 generates those)
     pub typed_items: bool,
+    /// register packages that fit together (one exports what another imports, two versions of one
+    /// name) and connect instances by name: every export of one instance that another
+    /// instantiation imports is aliased and passed as the argument of that name
+    pub wire: bool,
 }
 
 /// is `to` reachable from `from` along alias/argument edges (public queries only)
@@ -249,6 +364,49 @@ pub fn build_graph(rng: &mut Rng, lib: &[LibPkg], cfg: &GenCfg) -> Built {
     if pkgs.is_empty() {
         return Built { graph: g, pkgs, ops };
     }
+    let mut both_versions: Vec<(usize, usize)> = Vec::new();
+    if cfg.wire {
+        // packages that fit the registered ones: another version of a registered name, and a
+        // package exporting what a registered one imports (or importing what it exports)
+        let names: Vec<(Vec<String>, Vec<String>)> = lib.iter().map(lib_names).collect();
+        for round in 0..2 {
+            let registered: Vec<usize> = pkgs.iter().map(|(k, _)| *k).collect();
+            let mut cands: Vec<usize> = (0..lib.len())
+                .filter(|k| !registered.contains(k))
+                .filter(|k| {
+                    registered.iter().any(|r| {
+                        if round == 0 {
+                            lib[*r].name == lib[*k].name
+                        } else {
+                            names[*k].1.iter().any(|e| names[*r].0.contains(e)) || names[*k].0.iter().any(|i| names[*r].1.contains(i))
+                        }
+                    })
+                })
+                .collect();
+            rng.shuffle(&mut cands);
+            let take = if round == 0 { cands.len().min(1 + rng.below(2)) } else { rng.below(3) };
+            for k in cands.into_iter().take(take) {
+                if round == 0 && !rng.chance(3, 4) {
+                    continue;
+                }
+                let ok = match register(&mut g, &lib[k]) {
+                    Some(id) => {
+                        pkgs.push((k, id));
+                        true
+                    }
+                    None => false,
+                };
+                ops.push((Op::Register(k), ok));
+            }
+        }
+        for (a, (ka, _)) in pkgs.iter().enumerate() {
+            for (b, (kb, _)) in pkgs.iter().enumerate() {
+                if a < b && lib[*ka].name == lib[*kb].name {
+                    both_versions.push((a, b));
+                }
+            }
+        }
+    }
     let mut n_export = 0usize;
     let mut n_imp = 0usize;
     let mut n_def = 0usize;
@@ -259,13 +417,83 @@ pub fn build_graph(rng: &mut Rng, lib: &[LibPkg], cfg: &GenCfg) -> Built {
         g.instantiate(id);
         ops.push((Op::Instantiate(k), true));
     }
+    // both versions of one package name in one composition
+    for (a, b) in both_versions {
+        if rng.chance(3, 4) {
+            let mut pair = [pkgs[a], pkgs[b]];
+            if rng.chance(1, 2) {
+                pair.swap(0, 1);
+            }
+            for (k, id) in pair {
+                g.instantiate(id);
+                ops.push((Op::Instantiate(k), true));
+            }
+        }
+    }
     for _ in 0..cfg.steps {
         let nodes = live_nodes(&g);
         let w_rm = if cfg.removal { 2 } else { 0 };
         let w_def = if cfg.definitions { 2 } else { 0 };
         //            inst alias import arg export name define unset unexport remove unregister
-        let weights = [5, 8, 3, 14, 4, 3, w_def, w_rm, w_rm, w_rm, if cfg.removal { 1 } else { 0 }];
+        let weights = [5, 8, 3, 14, 4, 3, w_def, w_rm, w_rm, w_rm, if cfg.removal { 1 } else { 0 }, if cfg.wire { 6 } else { 0 }];
         match pick_weighted(rng, &weights) {
+            11 => {
+                // connect two instances by name
+                let insts: Vec<NodeId> = nodes.iter().copied().filter(|n| matches!(g[*n].kind(), NodeKind::Instantiation(_))).collect();
+                if insts.is_empty() {
+                    continue;
+                }
+                let target = *rng.pick(&insts);
+                let pid = g[target].package().unwrap();
+                let wanted: Vec<String> = g.types()[g[pid].ty()].imports.keys().cloned().collect();
+                let exports_of = |g: &CompositionGraph, n: NodeId| -> Vec<String> {
+                    match g[n].item_kind() {
+                        ItemKind::Instance(id) => g.types()[id].exports.keys().cloned().collect(),
+                        _ => vec![],
+                    }
+                };
+                let mut sources: Vec<NodeId> = nodes
+                    .iter()
+                    .copied()
+                    .filter(|s| *s != target && exports_of(&g, *s).iter().any(|e| wanted.contains(e)) && !reaches(&g, target, *s))
+                    .collect();
+                if sources.is_empty() {
+                    // instantiate a package that offers something
+                    let mut offer: Vec<(usize, PackageId)> = pkgs
+                        .iter()
+                        .copied()
+                        .filter(|(_, p)| g.types()[g[*p].instance_type()].exports.keys().any(|e| wanted.contains(e)))
+                        .collect();
+                    rng.shuffle(&mut offer);
+                    if let Some((k, p)) = offer.first().copied() {
+                        let n = g.instantiate(p);
+                        ops.push((Op::Instantiate(k), true));
+                        if n != target {
+                            sources.push(n);
+                        }
+                    }
+                }
+                if sources.is_empty() {
+                    continue;
+                }
+                let src = *rng.pick(&sources);
+                for name in exports_of(&g, src) {
+                    if !wanted.contains(&name) || !rng.chance(4, 5) {
+                        continue;
+                    }
+                    if !cfg.typed_items && matches!(g.types()[g[pid].ty()].imports.get(&name), Some(ItemKind::Type(_))) {
+                        continue;
+                    }
+                    match g.alias_instance_export(src, &name) {
+                        Ok(a) => {
+                            ops.push((Op::Alias(node_index(src), name.clone()), true));
+                            let ok = g.set_instantiation_argument(target, &name, a).is_ok();
+                            ops.push((Op::SetArg(node_index(target), name.clone(), node_index(a)), ok));
+                        }
+                        Err(_) => ops.push((Op::Alias(node_index(src), name.clone()), false)),
+                    }
+                }
+            }
             0 => {
                 // bias towards packages that are already instantiated (several instances of one package)
                 let (k, id) = *rng.pick(&pkgs);
@@ -321,7 +549,11 @@ pub fn build_graph(rng: &mut Rng, lib: &[LibPkg], cfg: &GenCfg) -> Built {
                     continue;
                 }
                 let (orig, kind) = rng.pick(&cands).clone();
-                let name = if rng.chance(1, 4) {
+                // an interface of the two-version family is imported under its own name only (the
+                // Lean model of the name-level aggregation does not cover an explicit import under
+                // another name whose interface is on the semver track of an implicit import)
+                let family = matches!(kind, ItemKind::Instance(id) if g.types()[id].id.as_deref().map_or(false, |i| i.starts_with("test:ver/")));
+                let name = if family || rng.chance(1, 4) {
                     orig.clone()
                 } else {
                     n_imp += 1;
